@@ -779,6 +779,11 @@ def plan(ctx, ref, quick):
                 sites = sorted(by_site)
                 rng.shuffle(sites)
                 ks = {rng.choice(by_site[s]) for s in sites[:3]}
+            if ref.script['batches'][ki].get('kind') == 'kv':
+                # the key-value block (one key is updated twice in it): always die inside the application's commit, after the
+                # key-history batch and before / between the application's own commit records - the block is executed
+                # again on restart and its history entries must end up stored exactly once
+                ks |= {labels.index(l) + 1 for l in ('gldb.SetSync:lastreceipts', 'gldb.SetSync:lastblock') if l in labels}
             if ref.script['batches'][ki].get('power') and 'gldb.SetSync:stateKey' in labels:
                 # the validator POWER UPDATE block: always die between the application's commit and State.Save, and
                 # right after the save (the following blocks are committed by the restarted node)
